@@ -1,5 +1,6 @@
 import Firebolt.Properties.C01
 import Firebolt.Properties.ExecFlow
+import Firebolt.Properties.ExecNet
 /-!
 # C04 — Backpressure never loses events; discard drops are counted and never block
 The ledger invariants under every interleaving are proved on the node component model (`Properties/ExecLedger.lean`).
@@ -37,5 +38,20 @@ open Firebolt.Exec in
 theorem discard_accounting_any_schedule (c : Cfg) (caps : Nat → Nat) (disc : Nat → Bool) (as : List Act) (s : St)
     (hr : run c (init c caps disc) as = some s) (k : Nat) : (s.offered k).length = (s.enq k).length + s.discarded k :=
   terminal_discard_accounting c s (reachable_all c caps disc as s hr) k
+
+
+open Firebolt.Exec in
+/-- **C04 on every edge of the tree, every global schedule**: whatever the discard settings, drops happen only at a
+discarding child, every drop is counted in `discarded_events_total` of that child, and receipts + drops = offers -/
+theorem tree_discard_any_global_schedule (cfg : Path → Cfg) (caps : Path → Nat) (disc : Path → Bool) (sched : List (Path × Act)) (N : Net)
+    (hr : grun (ginit cfg caps disc) sched = some N) (p : Path) (k : Nat) (hk : k < (cfg p).nChildren)
+    (htp : Terminal (cfg p) (N.st p)) (htk : Terminal (cfg (k :: p)) (N.st (k :: p))) :
+    ((N.st (k :: p)).recvd ++ (N.st p).dropped k).Perm ((N.st p).recvd.flatMap (results (cfg p))) ∧
+    (N.st p).discarded k = ((N.st p).dropped k).length ∧ (disc (k :: p) = false → (N.st p).dropped k = []) := by
+  obtain ⟨hG, hcfg, hst⟩ := reachable_ginv cfg caps disc sched N hr
+  subst hcfg
+  obtain ⟨h1, h2, h3⟩ := tree_edge N hG p k hk htp htk
+  refine ⟨h1, h2, fun hd => h3 ?_⟩
+  have := hst p k; simp only [DV, Prod.mk.injEq] at this; rw [this.1]; exact hd
 
 end Firebolt.C04
